@@ -4,48 +4,34 @@
 // ended; reading stops at the end of the buffer; an undecodable flowset fails the whole packet; nothing else is read.
 //@ include prelude.rs
 verus! {
-#[verifier::external_body] pub struct FlowSet { _p: () }
+#[verifier::external_body] pub struct FlowSetBody { _p: () }
 #[verifier::external_body] pub struct V9Parser { _p: () }
-/// semantic function of v9::FlowSet::parse (its contract: V.v9.flowset)
-pub uninterp spec fn fs_fn(st: V9Parser, b: Seq<u8>) -> (Option<(FlowSet, Seq<u8>)>, V9Parser);
-impl FlowSet {
-    #[verifier::external_body]
-    fn parse<'a>(i: &'a [u8], parser: &mut V9Parser) -> (r: IResult<&'a [u8], FlowSet>)
-        ensures (match r { Ok((rest, f)) => Some((f, rest@)), Err(_) => None }, *final(parser)) == fs_fn(*old(parser), i@),
-    { unimplemented!() }
+//@ type src/variable_versions/v9.rs - FlowSet
+//@ type src/variable_versions/v9.rs - FlowSetHeader
 }
-/// the flowsets of a packet body: up to n of them, back to back, stopping at the end of the bytes;
-/// None if one of them cannot be decoded
-pub open spec fn flowsets_spec(st: V9Parser, b: Seq<u8>, n: int) -> (Option<(Seq<FlowSet>, Seq<u8>)>, V9Parser)
-    decreases n
+//@ include v9_set_spec.rs
+verus! {
+impl FlowSet {
+//@ stub stubs/v9_flowset_parse.rs
+}
+proof fn lemma_post_step<'a>(old_p: V9Parser, new_p: V9Parser, b: &'a [u8], r: IResult<&'a [u8], FlowSet>)
+    requires flowset_post(old_p, new_p, b, r),
+    ensures set_step(old_p, b@).1 == new_p,
+        r is Err <==> set_step(old_p, b@).0 is None,
+        r is Ok ==> set_step(old_p, b@).0 == Some((r->Ok_0.1, r->Ok_0.0@)),
 {
-    if n <= 0 || b.len() == 0 {
-        (Some((Seq::<FlowSet>::empty(), b)), st)
-    } else {
-        let (r, st1) = fs_fn(st, b);
-        match r {
-            None => (None, st1),
-            Some((f, rest)) => {
-                let (r2, st2) = flowsets_spec(st1, rest, n - 1);
-                match r2 { None => (None, st2), Some((fs, rem)) => (Some((seq![f] + fs, rem)), st2) }
-            },
-        }
-    }
 }
 /// `done` flowsets already read, then whatever flowsets_spec yields from here
 pub open spec fn after(done: Seq<FlowSet>, x: (Option<(Seq<FlowSet>, Seq<u8>)>, V9Parser)) -> (Option<(Seq<FlowSet>, Seq<u8>)>, V9Parser) {
     (match x.0 { None => None, Some((fs, rem)) => Some((done + fs, rem)) }, x.1)
 }
-pub open spec fn res_eq(a: (Option<(Seq<FlowSet>, Seq<u8>)>, V9Parser), b: (Option<(Seq<FlowSet>, Seq<u8>)>, V9Parser)) -> bool {
-    a.1 == b.1 && match (a.0, b.0) { (None, None) => true, (Some((f1, r1)), Some((f2, r2))) => f1 =~= f2 && r1 =~= r2, _ => false }
-}
 proof fn lemma_step(st: V9Parser, b: Seq<u8>, n: int, done: Seq<FlowSet>)
-    requires n > 0, b.len() > 0, fs_fn(st, b).0 is Some,
+    requires n > 0, b.len() > 0, set_step(st, b).0 is Some,
     ensures res_eq(after(done, flowsets_spec(st, b, n)),
-                   after(done.push(fs_fn(st, b).0->Some_0.0), flowsets_spec(fs_fn(st, b).1, fs_fn(st, b).0->Some_0.1, n - 1))),
+                   after(done.push(set_step(st, b).0->Some_0.0), flowsets_spec(set_step(st, b).1, set_step(st, b).0->Some_0.1, n - 1))),
 {
-    let f = fs_fn(st, b).0->Some_0.0;
-    let x = flowsets_spec(fs_fn(st, b).1, fs_fn(st, b).0->Some_0.1, n - 1);
+    let f = set_step(st, b).0->Some_0.0;
+    let x = flowsets_spec(set_step(st, b).1, set_step(st, b).0->Some_0.1, n - 1);
     if x.0 is Some {
         assert(done + (seq![f] + x.0->Some_0.0) =~= done.push(f) + x.0->Some_0.0);
     }
@@ -56,15 +42,18 @@ impl FlowSetParser {
 //@ fn src/variable_versions/v9.rs - /impl FlowSetParser/ parse_flowsets
 //@   result: r
 //@   prerules: R16
-//@   ensures: res_eq((match r { Ok((rem, v)) => Some((v@, rem@)), Err(_) => None }, *final(parser)), flowsets_spec(*old(parser), i@, record_count as int))
-//@   before "let (remaining, flowsets) =": let ghost st0 = *parser; let ghost b0 = i@; let ghost n = record_count as int;
+//@   contract: stubs/v9_parse_flowsets.rs
+//@   beforeloop 0: let ghost st0 = *parser; let ghost b0 = i@; let ghost n = record_count as int;
 //@       proof { assert(Seq::<FlowSet>::empty() + flowsets_spec(st0, b0, n).0->Some_0.0 =~= flowsets_spec(st0, b0, n).0->Some_0.0); }
 //@   loop 0: invariant
 //@           __k <= record_count, n == record_count as int, st0 == *old(parser), b0 == i@,
 //@           res_eq(after(__acc.1@, flowsets_spec(*parser, __acc.0@, n - __k)), flowsets_spec(st0, b0, n)),
 //@       decreases record_count - __k
-//@   before "let (i, flowset) = FlowSet::parse(remaining, parser)?;": let ghost stk = *parser; let ghost remk = remaining@; let ghost donek = flowsets@;
-//@   after "flowsets.push(flowset);": proof { lemma_step(stk, remk, n - (__k - 1), donek); }
+//@   loopstart 0: let ghost stk = *parser; let ghost remk = __acc.0; let ghost donek = __acc.1@;
+//@   loopend 0: proof {
+//@       lemma_post_step(stk, *parser, remk, Ok((__acc.0, __acc.1@.last())));
+//@       lemma_step(stk, remk@, n - (__k - 1), donek);
+//@   }
 //@ end
 }
 } // verus!
